@@ -1,4 +1,11 @@
-/-! The kind system of covfie stacks: what each layer requires of, and provides on top of, the stack beneath. -/
+/-! The kind system of covfie stacks: what each layer requires of, and provides on top of, the stack beneath.
+
+Calibrated to the library's own statements (C13): a *declared* requirement is a `static_assert` of a layer or the
+`requires(_size > 0)` of `covfie::array` — violating one makes the class template itself ill-formed, every API operation
+is rejected; a *structural* requirement is one the lookup path needs in order to type-check (a wrapper indexes its
+coordinate, so the coordinate must be a vector, …) — violating one leaves the type constructible but any lookup is
+rejected.  Nothing else is required (e.g. a storage order accepts any backend beneath it, `affine` accepts integer
+coordinates): where the library states nothing, the model accepts, and the compile matrix checks that g++ agrees. -/
 namespace Covfie.Kinds
 
 inductive SK | f32 | f64 | i32 | u32 | i64 | u64
@@ -18,8 +25,10 @@ structure Kind where
   deriving DecidableEq, Repr
 
 inductive KindErr
-  | storageOrderNeeds1DIntegerBackend | hilbertNeeds2D | coordinateMustBeVector
-  | interpolatorNeedsIntegerBackend | linearNeedsFloatValues | zeroDimension | viewTooLarge | shuffleArity
+  -- declared (static_assert / requires-clause): the class template is ill-formed
+  | zeroDimension | hilbertNeeds2D | interpNeedsFloatCoordinate | linearNeedsFloatValues | interpDimMismatch
+  -- structural: the lookup path does not type-check
+  | coordinateMustBeVector | shuffleArity | mortonNeedsIntegerCoordinate
   deriving DecidableEq, Repr
 
 inductive Lay | strided | mortonT | mortonF | hilbert deriving DecidableEq, Repr
@@ -33,40 +42,66 @@ inductive KStack
   | clamp (b : KStack) | backup (b : KStack) | affine (b : KStack)
   | shuffle (perm : List Nat) (b : KStack)
   | cast (t : SK) (b : KStack) | deref (b : KStack)
-  | interp (i : Itp) (inSk : SK) (b : KStack)
+  | interp (i : Itp) (inSk : SK) (inDim : Nat) (b : KStack)
+  deriving DecidableEq, Repr
 
-/-- the rule of one layer, as a function of the kind of what lies beneath (and of nothing else) -/
+/-- the *declared* rule of one layer (its `static_assert`s and the non-empty-vector constraint), as a function of the
+    kind of what lies beneath (and of nothing else) -/
 def layerKind : (outer : KStack) → Kind → Except KindErr Kind
   | .layout l inSk inDim _, k =>
-      if k.inDim ≠ 1 ∨ k.inSk.isFloat ∨ inSk.isFloat then .error .storageOrderNeeds1DIntegerBackend
+      if inDim = 0 then .error .zeroDimension
       else if l = .hilbert ∧ inDim ≠ 2 then .error .hilbertNeeds2D
-      else if inDim = 0 then .error .zeroDimension
       else .ok { k with inSk := inSk, inDim := inDim, inBare := false }
-  | .clamp _, k => if k.inBare then .error .coordinateMustBeVector else .ok k
-  | .backup _, k => if k.inBare then .error .coordinateMustBeVector else .ok { k with outRef := false }
-  | .affine _, k => if k.inBare then .error .coordinateMustBeVector else .ok k   -- integer coordinates are accepted by the code: no stated restriction
-  | .shuffle p _, k => if k.inBare then .error .coordinateMustBeVector
-                        else if p.length ≠ k.inDim then .error .shuffleArity else .ok k
+  | .backup _, k => .ok { k with outRef := false }
   | .cast t _, k => .ok { k with outSk := t, outRef := false }
   | .deref _, k => .ok { k with outRef := false }
-  | .interp i inSk _, k =>
-      if k.inSk.isFloat ∨ k.inBare ∨ !inSk.isFloat then .error .interpolatorNeedsIntegerBackend
+  | .interp i inSk inDim _, k =>
+      if inDim = 0 then .error .zeroDimension
+      else if !inSk.isFloat then .error .interpNeedsFloatCoordinate
       else if i = .linear ∧ !k.outSk.isFloat then .error .linearNeedsFloatValues
-      else .ok { k with inSk := inSk, outRef := (if i = .nn then k.outRef else false) }
-  | _, k => .ok k
+      else if inDim ≠ k.inDim then .error .interpDimMismatch
+      else .ok { k with inSk := inSk, inDim := inDim, inBare := false, outRef := (if i = .nn then k.outRef else false) }
+  | _, k => .ok k     -- clamp, affine (integer coordinates are accepted by the code: no stated restriction), shuffle
 
-def kind : KStack → Except KindErr Kind
-  | .array outSk outDim => if outDim = 0 then .error .zeroDimension else .ok ⟨.u64, 1, true, outSk, outDim, true⟩
-  | .constant a n b m => if n = 0 ∨ m = 0 then .error .zeroDimension else .ok ⟨a, n, false, b, m, false⟩
-  | .identity sk n => if n = 0 then .error .zeroDimension else .ok ⟨sk, n, false, sk, n, false⟩
-  | .layout l a n b => match kind b with | .error e => .error e | .ok k => layerKind (.layout l a n b) k
-  | .clamp b => match kind b with | .error e => .error e | .ok k => layerKind (.clamp b) k
-  | .backup b => match kind b with | .error e => .error e | .ok k => layerKind (.backup b) k
-  | .affine b => match kind b with | .error e => .error e | .ok k => layerKind (.affine b) k
-  | .shuffle p b => match kind b with | .error e => .error e | .ok k => layerKind (.shuffle p b) k
-  | .cast t b => match kind b with | .error e => .error e | .ok k => layerKind (.cast t b) k
-  | .deref b => match kind b with | .error e => .error e | .ok k => layerKind (.deref b) k
-  | .interp i a b => match kind b with | .error e => .error e | .ok k => layerKind (.interp i a b) k
+/-- the *structural* rule of one layer: what its `at` needs from the coordinate it is given / hands down -/
+def layerLookup : (outer : KStack) → Kind → Option KindErr
+  | .layout l inSk _ _, _ =>
+      if (l = .mortonT ∨ l = .mortonF) ∧ inSk.isFloat then some .mortonNeedsIntegerCoordinate else none
+  | .clamp _, k | .backup _, k | .affine _, k => if k.inBare then some .coordinateMustBeVector else none
+  | .shuffle p _, k => if k.inBare then some .coordinateMustBeVector
+                        else if p.length ≠ k.inDim then some .shuffleArity else none
+  | .interp .nn _ _ _, k => if k.inBare then some .coordinateMustBeVector else none
+  | _, _ => none      -- cast, deref pass the coordinate through; linear over a bare index is the 1-D case
+
+/-- one layer on top of an analysed stack: (declared kind or error, first structural error) -/
+def step (outer : KStack) (r : Except KindErr Kind × Option KindErr) : Except KindErr Kind × Option KindErr :=
+  match r.1 with
+  | .error e => (.error e, r.2)
+  | .ok k => (layerKind outer k, match r.2 with | some e => some e | none => layerLookup outer k)
+
+def analyse : KStack → Except KindErr Kind × Option KindErr
+  | .array outSk outDim => (if outDim = 0 then .error .zeroDimension else .ok ⟨.u64, 1, true, outSk, outDim, true⟩, none)
+  | .constant a n b m => (if n = 0 ∨ m = 0 then .error .zeroDimension else .ok ⟨a, n, false, b, m, false⟩, none)
+  | .identity sk n => (if n = 0 then .error .zeroDimension else .ok ⟨sk, n, false, sk, n, false⟩, none)
+  | .layout l a n b => step (.layout l a n b) (analyse b)
+  | .clamp b => step (.clamp b) (analyse b)
+  | .backup b => step (.backup b) (analyse b)
+  | .affine b => step (.affine b) (analyse b)
+  | .shuffle p b => step (.shuffle p b) (analyse b)
+  | .cast t b => step (.cast t b) (analyse b)
+  | .deref b => step (.deref b) (analyse b)
+  | .interp i a n b => step (.interp i a n b) (analyse b)
+
+/-- declared kind: `.error` iff some layer's `static_assert` / constraint is violated -/
+def kind (s : KStack) : Except KindErr Kind := (analyse s).1
+/-- first structural error of the lookup path (meaningful when `kind s` is `.ok`) -/
+def lookupErr (s : KStack) : Option KindErr := (analyse s).2
+
+/-- a stack respects all stated kinds -/
+def wellKinded (s : KStack) : Bool :=
+  match kind s, lookupErr s with
+  | .ok _, none => true
+  | _, _ => false
 
 /-- size in bytes of the non-owning data (x86-64 layout: members in order, each aligned, total rounded up) -/
 def align (a n : Nat) : Nat := (n + a - 1) / a * a
@@ -96,20 +131,54 @@ def viewSize : KStack → Except KindErr (Nat × Nat)    -- (size, alignment)
   | .shuffle _ b => viewSize b
   | .cast _ b => viewSize b
   | .deref b => viewSize b
-  | .interp _ _ b => viewSize b
+  | .interp _ _ _ b => viewSize b
 
 /-- `field_view` asserts `sizeof(storage_t) <= 256` -/
 def viewFits (s : KStack) : Bool := match viewSize s with | .ok (n, _) => n ≤ 256 | .error _ => false
 
-inductive ApiOp | concept | fromPack | view | at | copy | move | copyAssign | moveAssign | dump | load | viewTrivial
+/-- same coordinate type (what `affine`'s converting constructor compares: the matrix type) -/
+def inputEq (b b' : KStack) : Bool :=
+  match kind b, kind b' with
+  | .ok k, .ok k' => k.inSk = k'.inSk ∧ k.inDim = k'.inDim
+  | _, _ => false
+
+/-- the converting constructors, layer by layer (mechanism): `dst::owning_data_t(const src::owning_data_t &)` type-checks.
+    Storage orders over `array` rebuild the storage through `nd_map`, handing the source each index tuple cast to their
+    own coordinate type, so source and target need the same coordinate type; `linear` / `nearest_neighbour` accept any
+    source with an empty configuration and convert the layer beneath; `affine` needs the same matrix type. -/
+def conv : KStack → KStack → Bool
+  | .layout _ a n (.array _ _), .layout _ a' n' (.array _ _) => n = n' && a = a'
+  | .interp _ _ _ b, .interp _ _ _ b' => b = b' || conv b b'
+  | .affine b, .affine b' => inputEq b b' && (b = b' || conv b b')
+  | _, _ => false
+def convertible (dst src : KStack) : Bool := dst = src || conv dst src
+
+/-- the property's "compatible composition": a different storage order and/or a different interpolation layer, the
+    same geometry (dimension, coordinate type) and the same stored vectors -/
+def compatible : KStack → KStack → Bool
+  | .layout _ a n (.array s m), .layout _ a' n' (.array s' m') => a = a' && n = n' && s = s' && m = m'
+  | .interp _ _ n b, .interp _ _ n' b' => n = n' && compatible b b'
+  | .affine b, .affine b' => inputEq b b' && compatible b b'
+  | _, _ => false
+
+inductive ApiOp
+  | concept | fromPack | view | at | copy | move | copyAssign | moveAssign | dump | load | viewTrivial
+  | convertFrom (src : KStack)
   deriving DecidableEq, Repr
 
-/-- a stack supports an API operation iff it is well-kinded (and, for anything that needs a view, the view fits) -/
+/-- does the translation unit exercising `op` on `field<s>` compile -/
 def supports (s : KStack) (op : ApiOp) : Bool :=
   match kind s with
   | .error _ => false
   | .ok _ => match op with
-    | .view | .at | .viewTrivial => viewFits s
-    | _ => true
+    | .view => viewFits s
+    | .at => viewFits s && (lookupErr s).isNone
+    | .convertFrom src => wellKinded src && convertible s src
+    | _ => true        -- `viewTrivial` asks about `non_owning_data_t`, not about `field_view`: no size limit
+
+/-- operations the property claims for `s` -/
+def applicable (s : KStack) : ApiOp → Bool
+  | .convertFrom src => wellKinded src && compatible s src
+  | _ => true
 
 end Covfie.Kinds
